@@ -55,9 +55,26 @@ func verifyTxs(block *types.Block, txGuard TxGuard, chainId uint16) error {
 		log.Error("Consensus verify fail: tx is appeared in parent blocks")
 		return ErrVerifyBlockFailed
 	}
+	// a transaction takes effect at most once: it must not appear twice in the block, on its own or inside a box
+	seen := make(map[common.Hash]struct{}, len(block.Txs))
 	for _, tx := range block.Txs {
 		if err := tx.VerifyTxBody(chainId, uint64(block.Time()), true); err != nil {
 			return ErrVerifyBlockFailed
+		}
+		hashes := []common.Hash{tx.Hash()}
+		if tx.Type() == params.BoxTx {
+			if box, err := types.GetBox(tx.Data()); err == nil {
+				for _, subTx := range box.SubTxList {
+					hashes = append(hashes, subTx.Hash())
+				}
+			}
+		}
+		for _, hash := range hashes {
+			if _, isSeen := seen[hash]; isSeen {
+				log.Error("Consensus verify fail: tx appears twice in the block", "hash", hash.Hex())
+				return ErrVerifyBlockFailed
+			}
+			seen[hash] = struct{}{}
 		}
 	}
 	return nil
